@@ -257,8 +257,11 @@ def run_calcorder(case):
         s.config = (conf, 0)
         s.vel_rev = c["rv"]
         s.box = np.array([CALC_PROBE["sysbox"], 1.0, 1.0])
-        val = engine.calculate_order(s, xyz=np.array([[g["xyz"], 0.0, 0.0]]) if c["xyz"] else None,
-                                     vel=np.array([[g["vel"], 0.0, 0.0]]) if c["vel"] else None,
-                                     box=np.array([g["box"], 1.0, 1.0]) if c["box"] else None)
-        vals.append(float(val[0]))
+        try:
+            val = engine.calculate_order(s, xyz=np.array([[g["xyz"], 0.0, 0.0]]) if c["xyz"] else None,
+                                         vel=np.array([[g["vel"], 0.0, 0.0]]) if c["vel"] else None,
+                                         box=np.array([g["box"], 1.0, 1.0]) if c["box"] else None)
+            vals.append(float(val[0]))
+        except Exception as e:  # noqa: BLE001
+            vals.append(f"raised {type(e).__name__}: {e}"[:200])
     return {"values": vals}
